@@ -72,7 +72,13 @@ func (pth KeyPath) String() string {
 	for _, key := range pth {
 		switch key.enc {
 		case KeyEncodingURL:
-			res += "/" + url.PathEscape(string(key.name))
+			// a part that starts with "x:" is read back as hex: a URL-encoded key
+			// beginning with these two bytes is written in hex as well
+			if escaped := url.PathEscape(string(key.name)); strings.HasPrefix(escaped, "x:") {
+				res += "/x:" + fmt.Sprintf("%X", key.name)
+			} else {
+				res += "/" + escaped
+			}
 		case KeyEncodingHex:
 			res += "/x:" + fmt.Sprintf("%X", key.name)
 		default:
